@@ -309,7 +309,8 @@ impl EGen {
         };
         let n = if self.profile == "overfull" { self.rng.gen_range((self.step as usize + 1)..=cap) }
                 else if self.chance(0.1) { 0 } else { self.rng.gen_range(0..=cap) };
-        let offgrid = self.profile == "malformed";
+        let offgrid = self.profile == "malformed" || self.profile == "py" || self.profile == "npy";
+        let npy = self.profile == "npy";
         // ids known so far per asset (including ones created in this round)
         let mut counts: Vec<usize> = (0..na).map(|a| live.env.book(a).get_orders().len()).collect();
         for _ in 0..n {
@@ -318,7 +319,7 @@ impl EGen {
             let tick = self.ticks[a];
             if k < 55 || counts[a] == 0 {
                 let bid = self.chance(0.5);
-                let mkt = self.chance(0.12);
+                let mkt = !npy && self.chance(0.12);
                 let mut p = (self.base + self.rng.gen_range(0..self.n_prices)) * tick;
                 if offgrid && tick > 1 && self.chance(0.4) { p += self.rng.gen_range(1..tick); }
                 let vi = self.rng.gen_range(0..self.vols.len());
@@ -328,6 +329,9 @@ impl EGen {
                 if price.map_or(true, |p| p % tick == 0) { counts[a] += 1; }
                 ops.push(EOp::Submit(a, bid, v, tr, price));
             } else if k < 75 {
+                let id = self.rng.gen_range(0..counts[a]);
+                ops.push(EOp::QCancel(a, id));
+            } else if k < 97 && npy {
                 let id = self.rng.gen_range(0..counts[a]);
                 ops.push(EOp::QCancel(a, id));
             } else if k < 97 {
